@@ -11,6 +11,10 @@ if [ -f /tmp/seedq-g.txt ]; then
     grep -q "^$qid $qname done" /tmp/seedq-g.log 2>/dev/null || { echo "refusing: $qid $qname is still queued (its deliverables live in /tmp/seed-$id)"; exit 1; }
   done < /tmp/seedq-g.txt
 fi
+# ... nor a worktree in which somebody is working (uncommitted modifications), unless FORCE=1
+if [ -d /tmp/wt-$id ] && [ -z "$FORCE" ] && [ -n "$(git -C /tmp/wt-$id status --porcelain 2>/dev/null | head -1)" ] && [ ! -f /tmp/seed-$id/patch.diff ]; then
+  echo "refusing: /tmp/wt-$id has modifications and no delivered patch yet (an agent is probably at work); FORCE=1 overrides"; exit 1
+fi
 git -C /repo worktree remove --force /tmp/wt-$id 2>/dev/null || true
 rm -rf /tmp/wt-$id /tmp/seed-$id
 git -C /repo worktree prune
